@@ -289,3 +289,224 @@ def go_right_continues(crate, R=3):
 
     _check_paths(ex, res, outs, per_path)
     return P.finish(ex, res, ["continuation from a later leaf", "run ends inside the buffer"])
+
+
+def _leaf_env(crate, M, RHS):
+    """shared model for the in-leaf search obligations: a buffer of m <= M records of RHS bytes with abstract sorted keys"""
+    from .ob_record import mk_buf, BYTES_SUMMARIES
+    kid = [z3.BitVec("leaf_key_%d" % i, 16) for i in range(M)]
+    m = z3.BitVec("records_in_buffer", 64)
+    q = z3.BitVec("query_key", 16)
+    base = z3.BitVec("buf_file_off", 64)
+
+    def key_of_index(ix):
+        v = kid[M - 1]
+        for i in range(M - 2, -1, -1):
+            v = z3.If(ix == BV64(i), kid[i], v)
+        return v
+
+    def keyobj(term):
+        o = Obj("&[u8]")
+        o.fields[("g", "kid")] = Sym(term, "u16")
+        return o
+
+    def h_u8_index(ex_, st_, frame, t, nf, args, dty):
+        b = S.deref_val(ex_, st_, args[0])
+        rng = args[1]
+        start, end = ex_._get_field(st_, rng, None, 0, "usize").t, ex_._get_field(st_, rng, None, 1, "usize").t
+        ln, off = b.fields[("g", "len")].t, b.fields[("g", "off")].t
+        sub = mk_buf(end - start, off + start)
+        inb = z3.And(z3.ULE(start, end), z3.ULE(end, ln))
+        return [(Ref(st_.new_cell(sub), (), False, "&[u8]"), inb), (("panic", "byte slice index out of range"), z3.Not(inb))]
+
+    def h_deser(ex_, st_, frame, t, nf, args, dty):
+        b = S.deref_val(ex_, st_, args[0])
+        off, ln = b.fields[("g", "off")].t, b.fields[("g", "len")].t
+        ix = z3.UDiv(off - base, BV64(RHS))
+        h = Obj(P.HEADER_TY)
+        h.fields[("ghost", "kid")] = Sym(key_of_index(ix), "u16")
+        h.fields[("ghost", "idx")] = Sym(ix, "usize")
+        r = S.ok(h, dty)
+        st_.events.append(("decode", "bincode::deserialize", [off, ln], r))
+        # decoding is only meaningful for a whole record of the buffer
+        aligned = z3.And(ln == BV64(RHS), z3.URem(off - base, BV64(RHS)) == BV64(0), z3.ULT(ix, m))
+        return [(r, aligned), (("panic", "decode of a byte range that is not a whole record of the leaf"), z3.Not(aligned))]
+
+    def h_key(ex_, st_, frame, t, nf, args, dty):
+        h = S.deref_val(ex_, st_, args[0])
+        return [(keyobj(h.fields[("ghost", "kid")].t), None)]
+
+    def h_query(ex_, st_, frame, t, nf, args, dty):
+        return [(keyobj(q), None)]
+
+    def h_cmp(ex_, st_, frame, t, nf, args, dty):
+        a, b = S.deref_val(ex_, st_, args[0]), S.deref_val(ex_, st_, args[1])
+        x, y = a.fields[("g", "kid")].t, b.fields[("g", "kid")].t
+        o = Obj("std::cmp::Ordering")
+        o.discr = Sym(z3.If(z3.ULT(x, y), BV64(-1), z3.If(x == y, BV64(0), BV64(1))), "isize")
+        return [(o, None)]
+
+    def h_eq(ex_, st_, frame, t, nf, args, dty):
+        a, b = S.deref_val(ex_, st_, args[0]), S.deref_val(ex_, st_, args[1])
+        return [(Sym(a.fields[("g", "kid")].t == b.fields[("g", "kid")].t, "bool"), None)]
+
+    def h_slice_len(ex_, st_, frame, t, nf, args, dty):
+        b = S.deref_val(ex_, st_, args[0])
+        if isinstance(b, Obj) and ("g", "len") in b.fields:
+            return [(b.fields[("g", "len")], None)]
+        return S.h_vec_len(ex_, st_, frame, t, nf, args, dty)
+    extra = [(r"^<\[u8\] as (std::ops::)?Index<(std::ops::)?Range<usize>>>::index$", h_u8_index), (r"^bincode::deserialize$", h_deser),
+             (r"^(record::record::)?Header::key$", h_key), (r"^<K as (\S*::)?Key<'_>>::as_ref_key$", h_query), (r"^<K as AsRef<\[u8\]>>::as_ref$", h_query),
+             (r"^<\[u8\] as Into<<K as (\S*::)?Key<'_>>::Ref>>::into$", S.h_identity0), (r"^<<K as (\S*::)?Key(<'_>)?>::Ref as (std::cmp::)?Ord>::cmp$", h_cmp),
+             (r"^<\[u8\] as PartialEq>::eq$", h_eq), (r"^core::slice::(<impl[^>]*>::)?len$", h_slice_len)] + BYTES_SUMMARIES
+    sortedness = z3.And([z3.Implies(z3.ULT(BV64(i + 1), m), z3.ULE(kid[i], kid[i + 1])) for i in range(M - 1)])
+    return kid, m, q, base, extra, sortedness, mk_buf
+
+
+def leaf_search(crate, M=4):
+    """C09/C01: in-leaf search of the on-disk index: read_header_buf finds a record with the key iff one is in the buffer
+    (sorted by key); get_leftmost moves from any hit to the FIRST record of that key in the buffer (the newest version,
+    since versions are stored newest first) — the on-disk counterpart of 'last element of the in-memory vector'."""
+    RHS = 60
+    res = P.ObResult("leaf_search[<=%d records]" % M)
+    rhb = crate.method("BPTreeFileIndex", "read_header_buf")
+    glm = crate.method("BPTreeFileIndex", "get_leftmost")
+    res.functions = ["BPTreeFileIndex::read_header_buf", "BPTreeFileIndex::get_leftmost"]
+    res.bounds = "leaf buffer of <= %d records of %d bytes, abstract totally ordered keys (16-bit), arbitrary query key" % (M, RHS)
+    kid, m, q, base, extra, sortedness, mk_buf = _leaf_env(crate, M, RHS)
+    # ---- read_header_buf
+    ex = P.mk_executor(crate, cap=2, loop_bound=M + 3, inline=[], extra_summaries=extra)
+    ex.named_consts = dict(getattr(ex, "named_consts", {}))
+    st = State()
+    st.pc.append(z3.And(z3.UGE(m, BV64(1)), z3.ULE(m, BV64(M)), sortedness, z3.ULT(base, BV64(1 << 40))))
+    buf = mk_buf(m * BV64(RHS), base)
+    bc = st.new_cell(buf)
+    me = Ref(st.new_cell(Obj("bptree::core::BPTreeFileIndex<K>")), (), False, "&BPTreeFileIndex<K>")
+    key = Ref(st.new_cell(Obj("K")), (), False, "&K")
+    ex.push_frame(st, rhb, [me, Ref(bc, (), False, "&[u8]"), key, Sym(BV64(RHS), "usize")], None, None)
+    outs = ex.run(st)
+    res.paths = len(outs)
+    present = z3.Or([z3.And(z3.ULT(BV64(i), m), kid[i] == q) for i in range(M)])
+    for o in outs:
+        if o.status in ("infeasible", "unwind"):
+            continue
+        if o.status != "returned":
+            if not P.prove(ex, res, o, z3.BoolVal(False), "no panic in read_header_buf (%s)" % o.note):
+                return P.finish(ex, res, [])
+            continue
+        r = o.result
+        if not P.prove(ex, res, o, ex.get_discr(o, r).t == BV64(0), "read_header_buf returns Ok"):
+            return P.finish(ex, res, [])
+        opt = r.fields[("Ok", 0)]
+        found = ex.get_discr(o, opt).t == BV64(1)
+        if not P.prove(ex, res, o, found == present, "found iff a record with the key is in the buffer"):
+            return P.finish(ex, res, [])
+        if ("Some", 0) in opt.fields:
+            tup = opt.fields[("Some", 0)]
+            h, off = tup.fields[(None, 0)], tup.fields[(None, 1)]
+            ix = z3.UDiv(off.t, BV64(RHS))
+            if not P.prove(ex, res, o, z3.Implies(found, z3.And(z3.URem(off.t, BV64(RHS)) == BV64(0), z3.ULT(ix, m),
+                                                              h.fields[("ghost", "kid")].t == q, h.fields[("ghost", "idx")].t == ix)),
+                           "hit: returned offset addresses a record with the key, returned header is that record"):
+                return P.finish(ex, res, [])
+            P.cover(ex, res, o, z3.And(found, m == BV64(M)), "hit in a full buffer")
+        P.cover(ex, res, o, z3.And(z3.Not(found), z3.UGT(q, kid[0]), m == BV64(M), z3.ULT(q, kid[M - 1])), "absent key between two present keys")
+    # ---- get_leftmost
+    ex2 = P.mk_executor(crate, cap=2, loop_bound=M + 3, inline=[], extra_summaries=extra)
+    st2 = State()
+    hit = z3.BitVec("hit_index", 64)
+    st2.pc.append(z3.And(z3.UGE(m, BV64(1)), z3.ULE(m, BV64(M)), sortedness, z3.ULT(base, BV64(1 << 40)), z3.ULT(hit, m)))
+    hk = kid[M - 1]
+    for i in range(M - 2, -1, -1):
+        hk = z3.If(hit == BV64(i), kid[i], hk)
+    st2.pc.append(hk == q)
+    buf2 = mk_buf(m * BV64(RHS), base)
+    bc2 = st2.new_cell(buf2)
+    prev = Obj(P.HEADER_TY)
+    prev.fields[("ghost", "kid")] = Sym(q, "u16")
+    prev.fields[("ghost", "idx")] = Sym(hit, "usize")
+    me2 = Ref(st2.new_cell(Obj("bptree::core::BPTreeFileIndex<K>")), (), False, "&BPTreeFileIndex<K>")
+    key2 = Ref(st2.new_cell(Obj("K")), (), False, "&K")
+    ex2.push_frame(st2, glm, [me2, Ref(bc2, (), False, "&[u8]"), key2, Sym(hit * BV64(RHS), "usize"), prev, Sym(BV64(RHS), "usize")], None, None)
+    first = BV64(M)
+    for i in range(M - 1, -1, -1):
+        first = z3.If(z3.And(z3.ULT(BV64(i), m), kid[i] == q), BV64(i), first)
+    for o in ex2.run(st2):
+        if o.status in ("infeasible", "unwind"):
+            continue
+        res.paths += 1
+        if o.status != "returned":
+            if not P.prove(ex2, res, o, z3.BoolVal(False), "no panic in get_leftmost (%s)" % o.note):
+                break
+            continue
+        r = o.result
+        if not P.prove(ex2, res, o, ex2.get_discr(o, r).t == BV64(0), "get_leftmost returns Ok"):
+            break
+        h = r.fields[("Ok", 0)]
+        if not P.prove(ex2, res, o, z3.And(h.fields[("ghost", "idx")].t == first, h.fields[("ghost", "kid")].t == q),
+                       "result = first (newest) record of the key in the buffer"):
+            break
+        P.cover(ex2, res, o, z3.And(z3.UGT(hit, first + 1)), "hit two or more records right of the first version")
+        P.cover(ex2, res, o, first == BV64(0), "run starts at the beginning of the buffer")
+        P.cover(ex2, res, o, z3.And(hit == first, z3.UGT(first, BV64(0))), "hit is already the first version")
+    ex.queries += ex2.queries
+    ex.solver_s += ex2.solver_s
+    ex.unwind_hits += ex2.unwind_hits
+    for k in ("calls_summarised", "calls_havoc", "calls_inlined"):
+        ex.stats[k].update(ex2.stats[k])
+    return P.finish(ex, res, ["hit in a full buffer", "absent key between two present keys", "hit two or more records right of the first version",
+                              "run starts at the beginning of the buffer", "hit is already the first version"])
+
+
+def validate_rejects_short_index(crate):
+    """C06/C03: BPTreeFileIndex::validate accepts an index file only if the file holds everything its header and tree
+    meta describe: size >= leaves_offset + records_count * record_header_size (the record headers are the last section
+    of the file).  An index whose tail is missing (power loss after the header rewrite, before the sync) is rejected and
+    regenerated from the blob instead of silently hiding records.  Also: Ok => written bit set and blob_size matches."""
+    from .ob_blob import file_obj
+    res = P.ObResult("validate_rejects_short_index")
+    fn = crate.method("BPTreeFileIndex", "validate", "FileIndexTrait")
+    res.functions = ["<BPTreeFileIndex<K> as FileIndexTrait<K>>::validate", "IndexHeader::{is_written,version,key_size,blob_size,magic_byte}", "File::size"]
+    res.bounds = "arbitrary header / tree meta / file size; records_count < 2^40, record_header_size < 2^20, leaves_offset < 2^60 (no wrap in the expected-length arithmetic)"
+    ex = P.mk_executor(crate, cap=2, loop_bound=3, inline=[r"^IndexHeader::(is_written|version|key_size|blob_size|magic_byte)$", r"^File::size$"])
+    st = State()
+    idx = Obj("blob::index::bptree::core::BPTreeFileIndex<K>")
+    f, size, synced = file_obj(crate, st, "indexfile")
+    idx.fields[(None, crate.field_index("BPTreeFileIndex", "file"))] = f
+    h = Obj("blob::index::header::IndexHeader")
+    hv = {}
+    for name, ty in (("magic_byte", "u64"), ("records_count", "usize"), ("record_header_size", "usize"), ("meta_size", "usize"),
+                     ("version", "u8"), ("key_size", "u16"), ("blob_size", "u64")):
+        hv[name] = z3.BitVec("ih_" + name, S.INT_W[ty])
+        h.fields[(None, crate.field_index("IndexHeader", name))] = Sym(hv[name], ty)
+    idx.fields[(None, crate.field_index("BPTreeFileIndex", "header"))] = h
+    tm = Obj("blob::index::bptree::meta::TreeMeta")
+    leaves = z3.BitVec("tm_leaves_offset", 64)
+    tm.fields[(None, crate.field_index("TreeMeta", "leaves_offset"))] = Sym(leaves, "u64")
+    tm.fields[(None, crate.field_index("TreeMeta", "tree_offset"))] = Sym(z3.BitVec("tm_tree_offset", 64), "u64")
+    idx.fields[(None, crate.field_index("BPTreeFileIndex", "metadata"))] = tm
+    st.pc.append(z3.And(z3.ULT(hv["records_count"], BV64(1 << 40)), z3.ULT(hv["record_header_size"], BV64(1 << 20)), z3.ULT(leaves, BV64(1 << 60))))
+    blob_size = z3.BitVec("blob_size_arg", 64)
+    ic = st.new_cell(idx)
+    ex.push_frame(st, fn, [Ref(ic, (), False, "&BPTreeFileIndex<K>"), Sym(blob_size, "u64")], None, None)
+    outs = ex.run(st)
+    res.paths = len(outs)
+    need = leaves + hv["records_count"] * hv["record_header_size"]
+    for o in outs:
+        if o.status in ("infeasible", "unwind"):
+            continue
+        if o.status != "returned":
+            if not P.prove(ex, res, o, z3.BoolVal(False), "no panic in validate (%s)" % o.note):
+                break
+            continue
+        isok = ex.get_discr(o, o.result).t == BV64(0)
+        if not P.prove(ex, res, o, z3.Implies(isok, z3.And(z3.Extract(0, 0, hv["version"]) == 1, hv["blob_size"] == blob_size)),
+                       "Ok => written bit set and the header describes exactly this blob length"):
+            break
+        if not P.prove(ex, res, o, z3.Implies(isok, z3.UGE(size, need)),
+                       "Ok => the file is at least as long as header + meta + tree + records_count record headers"):
+            break
+        P.cover(ex, res, o, isok, "complete index accepted")
+        P.cover(ex, res, o, z3.And(z3.Not(isok), z3.Extract(0, 0, hv["version"]) == 1, hv["blob_size"] == blob_size, z3.ULT(size, need),
+                                   z3.UGT(size, leaves)), "short file with a valid header rejected")
+    return P.finish(ex, res, ["complete index accepted"])
